@@ -7,7 +7,7 @@
    run; strings are lists of characters with the str/int/format semantics of lib/PyStr.v; fullmatch is lib/RegexSub.v. *)
 From Coq Require Import ZArith Bool Ascii String List.
 From Verif Require Import lib.Calendar lib.RegexSub lib.PyStr lib.DatesBase gen.DatesGen model.Dates model.Codecs
-     proofs.DatesProofs proofs.CodecsProofs.
+     proofs.DatesProofs proofs.CodecsProofs gen.CodecsExtGen model.CodecsExt proofs.CodecsExtProofs.
 Import ListNotations.
 Open Scope Z_scope.
 
@@ -82,6 +82,63 @@ Print Assumptions C11_fullmatch_spec.
 Theorem C11_int_text_roundtrip : forall n, parse_int (dec_int n) = Some n.
 Proof. exact parse_int_dec_int. Qed.
 Print Assumptions C11_int_text_roundtrip.
+
+(* 10. the import/export path (databoxes/_exports.py, _imports.py): the date columns of a sheet with any number of
+       frequency blocks of any lengths (padded to the longest block) come back as the periods written, each block decoded
+       with the frequency of its own mark and nothing else -- default codecs (str / Period.from_sdmx_string) ... *)
+Theorem C11_sheet_sdmx_roundtrip : forall blocks, Forall (block_ok sdmx_domain) blocks ->
+  exists cols, export_sheet (fmt_period FmtSdmx) blocks = Ok cols /\
+               import_sheet (parse_cell ParSdmx) false cols = Ok (map (fun b => (fst b, enumerate_from 0 (snd b))) blocks).
+Proof. exact sheet_sdmx_roundtrip. Qed.
+Print Assumptions C11_sheet_sdmx_roundtrip.
+
+(* ... and ISO codecs (to_iso_string at any position / Period.from_iso_string), where blocks of different frequencies
+   hold the same text *)
+Theorem C11_sheet_iso_roundtrip : forall pos blocks, Forall (block_ok in_domain) blocks ->
+  exists cols, export_sheet (fmt_period (FmtIso pos)) blocks = Ok cols /\
+               import_sheet (parse_cell ParIso) false cols = Ok (map (fun b => (fst b, enumerate_from 0 (snd b))) blocks).
+Proof. exact sheet_iso_roundtrip. Qed.
+Print Assumptions C11_sheet_iso_roundtrip.
+
+(* start_period_only=True: the first cell is decoded, row i is start + i (one-period block, any padding) *)
+Theorem C11_sheet_start_only_partial : forall p total, sdmx_domain p ->
+  exists x cells, export_column (fmt_period FmtSdmx) total [p] = Ok (x :: cells) /\
+    extract_block (parse_cell ParSdmx) true (p_freq p) (x :: cells)
+      = Ok (map (fun j => (j, padd p j)) (zrange 0 (S (length cells)))).
+Proof. exact sheet_start_only_sdmx. Qed.
+Print Assumptions C11_sheet_start_only_partial.
+
+(* 11. periods reached by arithmetic with Python-int or numpy-int offsets (p + k, k + p, p - k, p.shift(k), any
+       history): the serial is a builtin int, the period is the one computed on plain integers, its repr text is the
+       plain repr, and the repr term evaluates back to it *)
+Theorem C11_arith_serial_pyint : forall f s ops, tt (tp_serial (run_arith gen_casts (tp_init gen_casts f s) ops)) = TPy.
+Proof. exact arith_serial_pyint. Qed.
+Print Assumptions C11_arith_serial_pyint.
+
+Theorem C11_arith_repr_roundtrip : forall f s ops,
+  let q := run_arith gen_casts (tp_init gen_casts f s) ops in
+  sdmx_domain (untag q) ->
+  untag q = run_plain (mkP f (tv s)) ops /\ repr_str_t q = repr_str (untag q) /\
+  exists t, repr_term (untag q) = Ok t /\ eval_term t = Ok (untag q).
+Proof. exact arith_repr_roundtrip. Qed.
+Print Assumptions C11_arith_repr_roundtrip.
+
+(* without the int() of Period.__init__ (and of __add__) one numpy offset makes the repr text a non-constructor text *)
+Theorem C11_arith_without_casts_refuted :
+  let c := mkCasts false false false in
+  let q := run_arith c (tp_init c 4 (mkT 8080 TPy)) [AAdd (mkT 3 TNp); AAdd (mkT 1 TPy)] in
+  tt (tp_serial q) = TNp /\ untag q = mkP 4 8084 /\
+  repr_str_t q = Ok (s2l "qq(np.int64(2021),np.int64(1))") /\ repr_str (untag q) = Ok (s2l "qq(2021,1)").
+Proof. exact arith_without_casts_refuted. Qed.
+Print Assumptions C11_arith_without_casts_refuted.
+
+Example C11_ext_examples :
+  block_ok in_domain (1, [mkP 1 2021; mkP 1 2022]) /\ block_ok in_domain (4, [mkP 4 8084]) /\
+  export_sheet (fmt_period (FmtIso PStart)) [(1, [mkP 1 2021; mkP 1 2022]); (4, [mkP 4 8084])]
+    = Ok [(1, [s2l "2021-01-01"; s2l "2022-01-01"]); (4, [s2l "2021-01-01"; []])] /\
+  import_sheet (parse_cell ParIso) false [(1, [s2l "2021-01-01"; s2l "2022-01-01"]); (4, [s2l "2021-01-01"; []])]
+    = Ok [(1, [(0, mkP 1 2021); (1, mkP 1 2022)]); (4, [(0, mkP 4 8084)])].
+Proof. exact sheet_iso_example. Qed.
 
 (* non-vacuity and concrete instances (quarterly, integer, leap-day ISO string, daily repr, quarterly <-> monthly) *)
 Example C11_examples :
